@@ -593,8 +593,8 @@ MANIFEST = {
                   '/repo by an exact correspondence check (13 node kinds; get_sampled and plotting.render samples on '
                   'junction-aligned and off-grid points), and the denotation is evaluated directly on the '
                   'implementation as the specification oracle.',
-    'level_note': '_partial: C01_sampling_partial assumes that to_waveform succeeds and that all leaves define one '
-                  'channel set (guaranteed by qupulse constructors, not by the model). Open: error correspondence '
+    'level_note': '_partial: C01_sampling_partial assumes that to_waveform succeeds (guaranteed by qupulse constructors '
+                  'for well-formed templates, not by the model). Open: error correspondence '
                   '(C01_errors_statement is false as stated: eager scope evaluation in ArithmeticPT, non-injective '
                   'channel mappings). Not modelled: non-affine FunctionPT expressions (the affine FunctionWaveform is '
                   'represented by the observationally equal linear table), time-dependent transformation values, '
